@@ -211,6 +211,31 @@ def _full_race_cases() -> Any:
     return build()
 
 
+def _stale_clock_cases() -> Any:
+    """A submission that read the clock and was then overtaken: thread A submits X; thread B lets d seconds pass, submits Y,
+    lets a little more pass and submits Y again — inside Y's window but (when A's insert landed late with its early
+    clock reading) after X's expiry.  Anything in the cache that equates insertion order with expiry order is wrong in
+    exactly the schedules where A is preempted between reading the clock and taking the lock."""
+    @st.composite
+    def build(draw: Any) -> dict[str, Any]:
+        ttl = draw(st.sampled_from([3, 5, 5, 30]))
+        d = draw(st.integers(2, ttl - 1))
+        d2 = draw(st.integers(ttl - d + 1, ttl - 1)) if ttl - d + 1 <= ttl - 1 else ttl - 1
+        a = [["n", 0]] + draw(st.lists(st.tuples(st.just("n"), st.integers(0, 2)).map(list), max_size=1))
+        b = [["adv", d], ["n", 1], ["adv", d2], ["n", 1]] + draw(st.lists(st.tuples(st.just("n"), st.integers(0, 2)).map(list), max_size=1))
+        threads = [a, b]
+        if draw(st.booleans()):
+            threads.append(draw(_ops(ttl, 2, 3)))
+        nt = len(threads)
+        schedule = draw(st.one_of(
+            S.schedules(nt, min_segments=3, max_segments=14, max_run=6),
+            S.pct_schedules(nt, max_steps=60, max_changes=4),
+        ))
+        return {"via": "cache", "ttl": ttl, "capacity": draw(st.sampled_from([3, 4, 4])), "threads": threads, "schedule": schedule}
+
+    return build()
+
+
 def _history_cases(via: str) -> Any:
     @st.composite
     def build(draw: Any) -> dict[str, Any]:
@@ -428,6 +453,7 @@ def run_case(case: dict[str, Any]) -> Outcome:
 def main(chk: Check) -> None:
     chk.explore("race", _race_cases(), run_case, quick=1600, thorough=40000)
     chk.explore("full_race", _full_race_cases(), run_case, quick=900, thorough=20000)
+    chk.explore("stale_clock", _stale_clock_cases(), run_case, quick=700, thorough=15000)
     chk.explore("history", _history_cases("cache"), run_case, quick=800, thorough=12000)
     chk.explore("gate_window", _history_cases("gate"), run_case, quick=500, thorough=8000)
     # small exhaustive grid of "expired entry re-accepted, then the cache fills" histories (sequential, no schedule)
